@@ -142,14 +142,6 @@ fn hist(ops: &[&str]) -> String {
 fn main() {
     main_loop(|f| match f[0] {
         "hist" => hist(&f[1..]),
-        "bs" => {
-            let v = ints(&dec(f[1]));
-            let x = dec(f[2]).parse::<i32>().unwrap();
-            match v.binary_search(&x) {
-                Ok(i) => format!("Ok({})", i),
-                Err(i) => format!("Err({})", i),
-            }
-        }
         _ => "?bad-case".to_string(),
     });
 }
